@@ -398,6 +398,14 @@ def gen_C03(rng, tier):
         for _ in range(rng.randrange(0, 9)):
             typ = rng.choice([1, 2, 3, 3, 4, 6, 9, 16, 21, 22, 99, 0xFFFFFFFF])
             plen = rng.choice([0, 1, 3, 4, 7, 8, 9, 12, 16, 23, rng.randrange(0, 64)])
+            if typ == 3 and rng.random() < 0.6:
+                # module tags with every relation of the two addresses (empty, reversed, zero, extreme), with and without a string
+                a, z = rng.choice([(0, 0), (5, 5), (9, 3), (0x1000, 0x2000), (0xFFFFFFFF, 0), (0, 0xFFFFFFFF), (7, 8),
+                                   (0x80000000, 0x80000000)])
+                tags.append(E.tag(3, E.u32(a) + E.u32(z) + rng.choice([b"", b"\0", b"m\0", b"mod x\0", b"nonul"]),
+                                  fill=rng.choice([0, 0xAA])))
+                dist["module_tags_with_address_pairs"] = dist.get("module_tags_with_address_pairs", 0) + 1
+                continue
             tags.append(E.tag(typ, marker(plen, start=plen + typ % 50), fill=rng.choice([0, 0xAA])))
         b = bytearray(E.mbi(tags))
         if rng.random() < 0.3 and len(b) > 24:
@@ -695,6 +703,18 @@ def gen_C15(rng, tier):
                 neutralise(typ, body)
                 cases.append("mbi " + hx(E.mbi([E.tag(typ, bytes(body)[:max(0, s - 8)], size=s)])))
                 dist["builtin"] += 1
+    # the 11 built-in header-tag kinds of the header crate x every size 0..44 (through the typed getters of a loaded header)
+    for typ in range(0, 11):
+        for s in list(range(0, 45)) + [48, 100]:
+            n = max(8, (min(s, 128) + 7) // 8 * 8)
+            body = bytearray(marker(n - 8, start=typ + s))
+            if typ == 4 and len(body) >= 4:
+                body[0:4] = E.u32(rng.choice([0, 1]))          # console flags: a declared discriminant
+            if typ == 10 and len(body) >= 16:
+                body[12:16] = E.u32(rng.choice([0, 1, 2]))     # relocatable preference
+            t = (E.u16(typ) + E.u16(rng.choice([0, 1])) + E.u32(s) + bytes(body))[:n]
+            cases.append("hdr " + hx(E.header([t, E.htag(6, 0, b"")])))
+            dist["builtin_header_kinds"] = dist.get("builtin_header_kinds", 0) + 1
     # BootInformation::get_tag::<T>() with user-defined T: the tag of T's ID absent / first / behind others / twice, every size 8..40
     # a slice longer than the tag it starts with (ref_from_slice takes the size from the header, not from the slice)
     for size in range(8, 41):
@@ -755,7 +775,7 @@ def neutralise(typ, body):
 
 
 PROPS.update({
-    "C15": dict(gen=gen_C15, configs=["dev", "rel"], judge=judge_projection(["cast", "get", "load", "get_user", "ref_from_slice"]), both_placements=True,
+    "C15": dict(gen=gen_C15, configs=["dev", "rel"], judge=judge_projection(["cast", "get", "load", "get_user", "ref_from_slice", "information_request_tag", "tags"]), both_placements=True,
                 assumptions=["user-defined types of the harness (dom_cast.rs) declare BASE_SIZE = offset of the tail and dst_len = (size - BASE_SIZE)/element size"]),
 })
 
@@ -1115,6 +1135,12 @@ def gen_C05(rng, tier):
         elf = random.Random(rng.getrandbits(32)).sample(elf, 500)
     cases += elf
     dist["elf_tables"] = len(elf)
+    # EFI memory maps: descriptor strides, map lengths, iteration incl. the provided methods (nth beyond the end, count)
+    efi = [c for c in gen_C18(random.Random(rng.getrandbits(32)), tier)[0] if c.startswith("mbi ")]
+    if tier == "quick" and len(efi) > 400:
+        efi = random.Random(rng.getrandbits(32)).sample(efi, 400)
+    cases += efi
+    dist["efi_maps"] = len(efi)
     # the generic structure obtained from a slice (ref_from_slice): declared sizes around the slice length, both tag header kinds
     for h in (1, 2):
         for n in range(8, 49, 8):
@@ -1299,8 +1325,15 @@ def gen_elfname(rng, n, dist):
     in_use = [1, 2, 3, 8, 11, 0x60000000, 0x70000001, 0x80000000]
     pool = [b".text", b".data", b".bss", b"", b"\xc3\xa9t\xc3\xa9", b".rodata.str1.1", b"\xff\xfe", b"a\xc0\x80", b"x" * 40,
             b"\xf0\x9f\x98\x80", b"\xed\xa0\x80"]
-    for _ in range(n):
+    # long names around every power-of-two length a length counter could be truncated at (u8: 255/256, 2^12 page - the
+    # external buffer is at most two pages, so 2^16 is out of reach of this domain)
+    long_names = [b"n" * k for k in (127, 128, 254, 255, 256, 257, 300, 511, 512, 1000, 4000)] + \
+                 [b"a" * 254 + "\u00e9".encode(), b"a" * 255 + "\u00e9".encode()]
+    for it in range(n):
         names = [rng.choice(pool) for _ in range(rng.randrange(1, 7))]
+        if it % 6 == 0:
+            names[rng.randrange(len(names))] = long_names[(it // 6) % len(long_names)]
+            count(dist, "elfname_long_name")
         ext = bytearray()
         starts = []
         lead = rng.randrange(0, 3)
